@@ -23,7 +23,22 @@ pub fn response(status: u16, location: Option<&[u8]>) -> Vec<u8> {
     if decoys {
         w.extend_from_slice(b"Link: </link>; rel=\"canonical\"\r\nURI: /uri\r\nX-Location: /x-location\r\n");
     }
-    w.extend_from_slice(b"Content-Length: 0\r\n\r\n");
+    // a redirect is decided by its head; what follows it — nothing, a complete body, a body the connection
+    // drops in the middle, broken chunk framing, a content coding the body does not have — is thrown away with
+    // the connection and cannot make the exchange fail (seed C09-seed10)
+    let tail: &[u8] = if FOLLOWED.contains(&status) && location.is_some() {
+        match (status as usize * 5 + location.map_or(0, |l| l.len())) % 8 {
+            3 => b"Content-Length: 10\r\n\r\nabc",
+            4 => b"Transfer-Encoding: chunked\r\n\r\nzz\r\n",
+            5 => b"Content-Encoding: gzip\r\nContent-Length: 7\r\n\r\nnotgzip",
+            6 => b"Content-Length: 5\r\n\r\nmoved",
+            7 => b"Transfer-Encoding: chunked\r\n\r\n5\r\nmo",
+            _ => b"Content-Length: 0\r\n\r\n",
+        }
+    } else {
+        b"Content-Length: 0\r\n\r\n"
+    };
+    w.extend_from_slice(tail);
     w
 }
 
@@ -219,7 +234,118 @@ pub fn generate_c09(seed: u64, tier: &str, sink: &mut Sink) {
 
 pub fn generate_c10(seed: u64, tier: &str, sink: &mut Sink) {
     let n = if tier == "thorough" { 20_000 } else { 1500 };
+    real_socket_chains(sink);
     generate_chains(seed ^ 0xC10, n, false, false, sink)
+}
+
+/// Redirect chains over REAL sockets (the scripted connections sit above the dial, so what the connection code
+/// itself remembers between two connections is invisible to them): one host name, three listeners on three
+/// ports, chains A → B → C and A → C → B → A…; every hop must be answered by the listener its URL names, with
+/// the same method and body (seed C10-seed10: a per-thread "last winner" cache keyed by the host name alone).
+/// The name is `localhost` as the system resolves it.
+fn real_socket_chains(sink: &mut Sink) {
+    use std::io::{Read, Write};
+    use std::net::TcpListener;
+    use std::sync::{Arc, Mutex};
+    // a listener that records (id, request head+body) and answers per its script: 307 to the next URL, or 200
+    type Log = Arc<Mutex<Vec<(usize, Vec<u8>)>>>;
+    fn serve(id: usize, log: Log, next: Arc<Mutex<Option<String>>>) -> u16 {
+        let l = TcpListener::bind("127.0.0.1:0").unwrap();
+        let port = l.local_addr().unwrap().port();
+        std::thread::spawn(move || {
+            l.set_nonblocking(true).ok();
+            let end = std::time::Instant::now() + std::time::Duration::from_secs(20);
+            while std::time::Instant::now() < end {
+                match l.accept() {
+                    Ok((mut s, _)) => {
+                        s.set_nonblocking(false).ok();
+                        s.set_read_timeout(Some(std::time::Duration::from_millis(300))).ok();
+                        let mut seen = vec![];
+                        let mut buf = [0u8; 4096];
+                        // the request: head, then Content-Length body
+                        loop {
+                            match s.read(&mut buf) {
+                                Ok(0) | Err(_) => break,
+                                Ok(k) => {
+                                    seen.extend_from_slice(&buf[..k]);
+                                    if let Some(p) = seen.windows(4).position(|w| w == b"\r\n\r\n") {
+                                        let head = String::from_utf8_lossy(&seen[..p]).to_ascii_lowercase();
+                                        let cl = head.lines().find_map(|l| l.strip_prefix("content-length:").map(|v| v.trim().parse::<usize>().unwrap_or(0))).unwrap_or(0);
+                                        if seen.len() >= p + 4 + cl {
+                                            break;
+                                        }
+                                    }
+                                }
+                            }
+                        }
+                        log.lock().unwrap().push((id, seen));
+                        let reply = match next.lock().unwrap().clone() {
+                            Some(u) => format!("HTTP/1.1 307 Temporary Redirect\r\nLocation: {}\r\nX-Listener: {}\r\nContent-Length: 0\r\n\r\n", u, id),
+                            None => format!("HTTP/1.1 200 OK\r\nX-Listener: {}\r\nContent-Length: 0\r\n\r\n", id),
+                        };
+                        let _ = s.write_all(reply.as_bytes());
+                    }
+                    Err(_) => std::thread::sleep(std::time::Duration::from_millis(2)),
+                }
+            }
+        });
+        port
+    }
+    // (the resolver hook hands out complete socket addresses, port included, so a hooked name cannot be used
+    // for hops that differ in the port only: the system's `localhost` it is)
+    for (name, by_override) in [("localhost", false)] {
+        let log: Log = Arc::new(Mutex::new(vec![]));
+        let nexts: Vec<Arc<Mutex<Option<String>>>> = (0..3).map(|_| Arc::new(Mutex::new(None))).collect();
+        let ports: Vec<u16> = (0..3).map(|i| serve(i, log.clone(), nexts[i].clone())).collect();
+        if by_override {
+            // the resolver hook answers with the loopback address whatever the port
+            attohttpc::verif_hooks::set_resolver_override(name, vec![std::net::SocketAddr::from(([127, 0, 0, 1], ports[0]))]);
+        }
+        for order in [vec![0usize, 1, 2], vec![2, 0, 1], vec![1, 0], vec![1, 2, 0]] {
+            log.lock().unwrap().clear();
+            for n in &nexts {
+                *n.lock().unwrap() = None;
+            }
+            // listener order[i] redirects to order[i+1]; a listener that occurs twice redirects on its first visit only
+            let mut visits = vec![0usize; 3];
+            for w in order.windows(2) {
+                visits[w[0]] += 1;
+                if visits[w[0]] == 1 {
+                    *nexts[w[0]].lock().unwrap() = Some(format!("http://{}:{}/hop{}", name, ports[w[1]], w[1]));
+                }
+            }
+            let simple = visits.iter().all(|v| *v <= 1);
+            if !simple {
+                continue; // (a listener that redirects only once would need per-visit state: keep to simple paths)
+            }
+            let body = b"the same body on every hop".to_vec();
+            let res = attohttpc::post(format!("http://{}:{}/start", name, ports[order[0]])).connect_timeout(std::time::Duration::from_secs(3)).read_timeout(std::time::Duration::from_secs(3)).bytes(body.clone()).send();
+            let seen = log.lock().unwrap().clone();
+            let ids: Vec<usize> = seen.iter().map(|(i, _)| *i).collect();
+            let unresolved = !by_override && res.is_err() && seen.is_empty();
+            let o: Result<(), (String, String)> = (|| {
+                if unresolved {
+                    return Ok(()); // `localhost` does not resolve in this sandbox: nothing is asserted
+                }
+                if ids != order {
+                    return Err(("hop-peer-real-sockets".to_string(), format!("{}: the chain names listeners {:?}, the requests were answered by {:?} ({:?})", name, order, ids, res.as_ref().map(|r| r.status().as_u16()).map_err(|e| format!("{:?}", e.kind())))));
+                }
+                for (k, (_, req)) in seen.iter().enumerate() {
+                    let pr = spec::parse_request(req).map_err(|e| ("malformed-hop-real-sockets".to_string(), e))?;
+                    if pr.method != b"POST" || pr.body != body {
+                        return Err(("body-differs-real-sockets".to_string(), format!("hop {} carried {:?} with {} body octets", k, String::from_utf8_lossy(&pr.method), pr.body.len())));
+                    }
+                    let want_host = format!("{}:{}", name, ports[order[k]]);
+                    if !pr.headers.iter().any(|(n, v)| n == "host" && v == want_host.as_bytes()) {
+                        return Err(("host-real-sockets".to_string(), format!("hop {}: Host fields {:?}, the hop's URL has {}", k, pr.headers.iter().filter(|(n, _)| n == "host").map(|(_, v)| String::from_utf8_lossy(v).to_string()).collect::<Vec<_>>(), want_host)));
+                    }
+                }
+                Ok(())
+            })();
+            sink.push(Case { tags: vec!["mode=real-socket-chain".into(), format!("resolved-by={}", if by_override { "override" } else { "system" }), format!("hops={}", order.len()), if unresolved { "trivial".into() } else { "nontrivial".into() }], op: "nop real-socket-chain".into(), impl_line: "nop".into(), oracle: o });
+        }
+        attohttpc::verif_hooks::clear_resolver_overrides();
+    }
 }
 
 /// redirect chains that change host / port / scheme / proxy applicability; `proxy_focus`: always a
